@@ -121,6 +121,13 @@ class ModelSystem(System):
         if self.invalid_ops:
             for h in self._stale_assets(c)[-1:]:
                 ops.append((('remove_asset', h), 1))
+            # the same asset object handed to add_asset again (no id / the id of another live asset / a free id)
+            for h in sorted(c.r_assets)[:1]:
+                others = sorted(a['id'] for g, a in c.r_assets.items() if g != h)
+                ops.append((('readd_asset', h, None), 1))
+                for i in others[:1]:
+                    ops.append((('readd_asset', h, i), 1))
+                ops.append((('readd_asset', h, maxid + 2), 1))
         # associations
         if len(c.r_assocs) < self.max_assocs:
             live = sorted(c.r_assets)
@@ -143,6 +150,21 @@ class ModelSystem(System):
                         if self._dup_link(c, ac['cls'], L, R):
                             cost += 1
                         ops.append((('add_association', ac['cls'], L, R), min(cost, 2)))
+            if self.invalid_ops and live:
+                # an association one of whose members is not an asset of this model: an object that was
+                # removed / rejected earlier, or one that was never handed to the model at all
+                for ac in self.assoc_classes[:2]:
+                    lc = [h for h in live if self.is_sub(c.r_assets[h]['type'], ac['lt'])]
+                    rc = [h for h in live if self.is_sub(c.r_assets[h]['type'], ac['rt'])]
+                    two = ac['cls'] in self.pair_classes
+                    for side, cands, other_t in (('L', lc, ac['rt']), ('R', rc, ac['lt'])):
+                        if not cands:
+                            continue
+                        for kind in ('fresh', 'stale'):
+                            ops.append((('add_association_nonmember', ac['cls'], side, cands[0], kind, False), 1))
+                            if two:
+                                # the live member comes first in its field and the outsider shares that field
+                                ops.append((('add_association_nonmember', ac['cls'], side, cands[0], kind, True), 1))
         for h in sorted(c.r_assocs):
             ops.append((('remove_association', h), 0))
             x = c.r_assocs[h]
@@ -184,9 +206,11 @@ class ModelSystem(System):
                         present = s0 in c.r_attackers[h]['eps'].get(a, [])
                         ops.append((('add_entry_point', h, a, s0) if not present else ('remove_entry_point', h, a, s0), 1))
             stale = [h for h in range(len(c.attackers)) if h not in c.r_attackers]
+            for h in sorted(c.r_attackers)[:1]:
+                ops.append((('remove_attacker_twin', h), 1))
             for h in stale[-1:]:
-                if not any(self._att_equal(c, h, g) for g in c.r_attackers):
-                    ops.append((('remove_attacker', h), 1))
+                # (a stale attachment may compare equal to a live one: same id, name and entry points)
+                ops.append((('remove_attacker', h), 1))
         return ops
 
     def _stale_assets(self, c):
@@ -488,6 +512,61 @@ class ModelSystem(System):
             return MUST_RAISE, thunk, None, tag
         return MUST_SUCCEED, thunk, commit, tag
 
+    def op_readd_asset(self, c, op):
+        _, h, aid = op
+        obj = c.assets[h]
+        live_ids = {a['id'] for g, a in c.r_assets.items() if g != h}
+        tag = 'id=%s' % ('none' if aid is None else 'live' if aid in live_ids else 'free')
+
+        def thunk():
+            c.model.add_asset(obj, asset_id=aid)
+        # the asset is already in the model: whatever the call does, raising must change nothing
+        return 'raise_unchanged_or_undetermined', thunk, None, tag
+
+    def op_add_association_nonmember(self, c, op):
+        _, cls, side, h, kind, shared = op
+        ac = next(a for a in self.assoc_classes if a['cls'] == cls)
+        other_t = ac['rt'] if side == 'L' else ac['lt']
+        same_t = ac['lt'] if side == 'L' else ac['rt']
+        outsider = None
+        if kind == 'stale':
+            want = same_t if shared else other_t
+            for g in reversed(self._stale_assets(c)):
+                o = c.assets[g]
+                if self.is_sub(str(getattr(o, 'type', '')), want):
+                    outsider = o
+                    break
+        if outsider is None:
+            t = same_t if shared else other_t
+            t = next((x for x in self.types if self.is_sub(x, t)), None)
+            outsider = getattr(self.fx.ns, t)(name='outsider') if t else None
+        live_obj = c.assets[h]
+        err = None
+        obj = None
+        try:
+            if outsider is None:
+                raise ValueError('no concrete type for the outsider')
+            if shared:
+                # live member first, outsider second in the same field; the other field holds a live asset
+                oc = [g for g in sorted(c.r_assets) if self.is_sub(c.r_assets[g]['type'], other_t)]
+                if not oc:
+                    raise ValueError('no live asset for the other field')
+                mine, theirs = [live_obj, outsider], [c.assets[oc[0]]]
+            else:
+                mine, theirs = [live_obj], [outsider]
+            lf, rf = (mine, theirs) if side == 'L' else (theirs, mine)
+            obj = getattr(self.fx.ns, cls)(**{ac['lf']: lf, ac['rf']: rf})
+        except Exception as e:  # noqa: BLE001
+            err = e
+        c.assocs.append(obj)
+        tag = f'{cls},{side},{kind}' + (',shared' if shared else '')
+
+        def thunk():
+            if obj is None:
+                raise err
+            c.model.add_association(obj)
+        return 'raise_unchanged_or_undetermined', thunk, None, tag
+
     # -- removal helpers on the reference
     def _ref_drop_member(self, c, a, g, real_kept):
         """Remove asset a from association g in the reference.  An association losing its last
@@ -617,6 +696,18 @@ class ModelSystem(System):
         def commit(checking):
             del c.r_attackers[g]
         return MUST_SUCCEED, thunk, commit, 'live'
+
+    def op_remove_attacker_twin(self, c, op):
+        """An attachment that was never given to the model but compares equal to a live one (same id,
+        name and entry points): it is not part of the model, so removing it changes nothing."""
+        import copy
+        g = op[1]
+        twin = copy.copy(c.attackers[g])
+        twin.entry_points = list(twin.entry_points)
+
+        def thunk():
+            c.model.remove_attacker(twin)
+        return ANY_UNCHANGED, thunk, None, 'equal_twin'
 
     def op_add_entry_point(self, c, op):
         _, g, a, s = op
